@@ -882,3 +882,11 @@ CASES.append({'name': 'ben48r5-named-radius-test-not-strict', 'props': ['C18'], 
               'edits': [('oxmpl/src/geometric/planners/prm.rs', '                    pd.space.distance(&q_rand, &milestone.state) < self.connection_radius;', '                    pd.space.distance(&q_rand, &milestone.state) <= self.connection_radius;')]})
 CASES.append({'name': 'ben48r1-shared-helper-not-strict', 'props': ['C18'], 'expect': ['C18.guards'], 'patch': '/verif/selftest/benign/ben48-r1.diff',
               'edits': [('oxmpl/src/geometric/planners/prm.rs', '< self.connection_radius', '<= self.connection_radius')]})
+
+# round 19 of seeded changes (base 9308c57; six, the agents asked to finish within ten minutes)
+seeded('seeded-RJC01-prm-start-validity-cached-across-problems', ['C01'], ['C01.gate'])
+seeded('seeded-RJC04-rn-interpolate-unrolled-lane-slip', ['C06'], ['C06.loops'])                 # named only incidentally, see meta.json
+seeded('seeded-RJC08-prm-context-helper-unwraps-the-checker', ['C08'], ['C08.panics'])
+seeded('seeded-RJC09-rn-distance-unrolled-lane-slip', ['C09'], ['C09.range'])
+seeded('seeded-RJC12-so3-centre-fast-path-skips-normalise', ['C12'], ['C12.centre'])
+seeded('seeded-RJC14-so3-direct-sampler-axis-from-cube', ['C14', 'C11'], ['C14.so3'])
